@@ -501,11 +501,19 @@ func (w *Writer) finishSection() error {
 				panic("fail on fresh block")
 			}
 		}
+		// The last block of this level must be part of the next
+		// level (and must not be left over for the next section).
+		if err := w.flushBlock(); err != nil {
+			return err
+		}
+		if len(w.index) >= len(idx) {
+			// Keys so long that every index block holds a single
+			// entry: another level would not be smaller. The reader
+			// scans a multi-block top level linearly.
+			break
+		}
 	}
 	w.index = nil
-	if err := w.flushBlock(); err != nil {
-		return err
-	}
 
 	blockStats := w.getBlockStats(typ)
 	blockStats.IndexBlocks = w.Stats.idxStats.Blocks - before
